@@ -196,7 +196,12 @@ pub(crate) fn validate_source(s: &str) -> bool {
 }
 
 pub(crate) fn validate_username(username: &str) -> Result<(), ValidationError> {
-    if !username.is_empty() && (username.as_bytes()[0] == b'#' || username.as_bytes()[0] == b'&') {
+    if username.is_empty() || username.contains(char::is_whitespace) {
+        // name can be given as last parameter (after ':') - it can be empty or can have spaces.
+        Err(ValidationError::new(
+            "Username must not be empty and must not have whitespaces.",
+        ))
+    } else if username.as_bytes()[0] == b'#' || username.as_bytes()[0] == b'&' {
         Err(ValidationError::new(
             "Username must not have channel prefix.",
         ))
